@@ -1817,6 +1817,55 @@ const static sslCipherSpec_t supportedCiphers[] = {
       csNullVerifyMac }
 };
 
+#ifdef USE_CLIENT_SIDE_SSL
+/* Remember the cipher suite list the application gave to the client session. */
+int32_t sslSetClientOfferedSuites(ssl_t *ssl, const psCipher16_t cipherSpec[],
+        uint8_t cipherSpecLen)
+{
+    uint8_t i;
+
+    psFree(ssl->clientOfferedSuites, ssl->sPool);
+    ssl->clientOfferedSuites = NULL;
+    ssl->clientOfferedSuitesLen = 0;
+    if (cipherSpecLen == 0 || cipherSpec == NULL)
+    {
+        return PS_SUCCESS;
+    }
+    ssl->clientOfferedSuites = psMalloc(ssl->sPool,
+            cipherSpecLen * sizeof(psCipher16_t));
+    if (ssl->clientOfferedSuites == NULL)
+    {
+        return PS_MEM_FAIL;
+    }
+    for (i = 0; i < cipherSpecLen; i++)
+    {
+        ssl->clientOfferedSuites[i] = cipherSpec[i];
+    }
+    ssl->clientOfferedSuitesLen = cipherSpecLen;
+    return PS_SUCCESS;
+}
+
+/* Was cipher suite id in the list this client offered?  With the library
+   default list every suite sslGetCipherSpec() accepts was offered. */
+psBool_t sslClientOfferedSuite(const ssl_t *ssl, uint16_t id)
+{
+    uint8_t i;
+
+    if (ssl->clientOfferedSuitesLen == 0)
+    {
+        return PS_TRUE;
+    }
+    for (i = 0; i < ssl->clientOfferedSuitesLen; i++)
+    {
+        if (ssl->clientOfferedSuites[i] == id)
+        {
+            return PS_TRUE;
+        }
+    }
+    return PS_FALSE;
+}
+#endif /* USE_CLIENT_SIDE_SSL */
+
 #ifdef USE_SERVER_SIDE_SSL
 /******************************************************************************/
 /*
